@@ -337,7 +337,8 @@ OUTSIDE = ["hash seeds other than the pinned ones in `system_order` (each is dec
            "hash-order dependence through set literals/comprehensions or through third-party containers (only set()/frozenset() calls are havocked)",
            "fresh interpreter vs. batch worker process: a worker builds its model from its kwargs alone (decided in C15.serial)",
            "user systems that themselves call the global generators"]
-STUBS = ["model.random = SymRandom(stream)", "random.* and numpy.random.* entry points replaced by Havoc stubs driven by an independent symbolic stream",
+STUBS = ["system_order: PYTHONHASHSEED pinned per partition for the worker process (enumerated, not symbolic)",
+         "model.random = SymRandom(stream)", "random.* and numpy.random.* entry points replaced by Havoc stubs driven by an independent symbolic stream",
          "ECAgent.Core.random replaced by a recording module (seed_plumbing only)", "set/frozenset as seen by ECAgent.Core/Environments/Batching/Collectors replaced by HavocSet: exact membership/size/algebra, arbitrary (symbolic) iteration order; set literals/comprehensions are not intercepted",
          "Model.logger replaced by a no-op logger"]
 ASSUMPTIONS = ["the oracle is computed from the model's own stream and configuration only: random.Random.choice(seq) = seq[_randbelow(len(seq))], "
